@@ -43,6 +43,7 @@ type GenCfg struct {
 	MoreBuiltins                                                                               int    // added to the percentages with which built-ins (and round_places among them) are drawn
 	ArgExprPct                                                                                 int    // chance that a command argument is an {expression} (default 35)
 	StopArgs                                                                                   bool   // model-free C12 worlds: <<stop now>>, <<stop {1 + 1}>>
+	ExprOnlyLines                                                                              bool   // model-free worlds: some lines are nothing but {an expression}
 	NoLongLines                                                                                bool   // C05/C20: every base script is loaded hundreds of times - long lines come as stream cases there
 	HostFnWrites                                                                               bool   // <<call pw("n0", e)>>: a host function that writes a variable while the script runs
 	BigRoundsPct                                                                               int    // share of hub worlds whose loop runs 126-300 rounds
@@ -467,6 +468,14 @@ func (g *gen) lineS(isOption bool) *LineS {
 }
 
 func (g *gen) line() *Stmt {
+	if g.cfg.ExprOnlyLines && g.tp.Chance(6, "expronlyline") {
+		// a line that consists of an inline expression only - and may therefore render as nothing at all
+		e := &Expr{K: eStr, S: []string{"", " ", "x"}[g.tp.Int(0, 2, "expronlylit")]}
+		if vs := g.varsOf('s'); len(vs) > 0 && g.tp.Bool("expronlyvar") {
+			e = &Expr{K: eVar, S: vs[g.tp.Int(0, len(vs)-1, "var")]}
+		}
+		return &Stmt{K: sLine, Line: &LineS{Parts: []Part{{E: e}}}}
+	}
 	if g.cfg.Random && g.tp.Chance(45, "randline") {
 		return g.randLine()
 	}
